@@ -30,6 +30,8 @@ VARSETS = {
     "range-log": {"a": {"lo": 1, "hi": 100, "steps": 3, "scale": "log"}, "b": {"values": [1.0, 2.0, 3.0]}},
     "range-log-noendpoint": {"a": {"lo": 1, "hi": 1000, "steps": 3, "scale": "log", "endpoint": False}, "b": {"values": [1.0, 2.0, 3.0]}},
     "from-context": {"a": {"from_context": "a_list"}, "b": {"values": [10.0, 20.0]}},
+    # sweep variables that share their names with functions of the expression language: inside the expression the variable wins
+    "function-named-variables": {"max": {"values": [4.0, 6.0, 9.0]}, "min": {"values": [2.0, 3.0, 5.0]}},
 }
 CONTEXT = {"a_list": [7.0, 8.0]}
 
@@ -187,7 +189,46 @@ def falsy_node_parameter():
 
 
 falsy_node_parameter()
-print(json.dumps({"bound": "9 variable sets (1..3 variables; values, linear/log ranges with/without endpoint, from_context) x {combinatorial, by_position, by_position+broadcast} x {source, operation, probe} x 2 expressions; 1 precedence case + 3 falsy node-parameter cases",
+
+def values_pass_through_unchanged():
+    """explicit and from_context sequences reach the wrapped processor and <var>_values element for element, with the type each
+    element was given (no coercion to a common type): heterogeneous sequences"""
+    global evaluations
+    from semantiva.examples.test_utils import FloatOperation, FloatDataType
+    seen = []
+
+    class RecorderC03(FloatOperation):
+        """records the parameter it was called with"""
+
+        def _process_logic(self, data, tag):
+            seen.append(tag)
+            return FloatDataType(data.data)
+
+    typed = lambda xs: [(type(x).__name__, x) for x in xs]
+    SEQS = {"ints-and-a-float": [1, 2.5, 3], "bools-and-ints": [True, 2, 0, False], "number-and-string": [1, "a", 2.0], "tuples": [(1, 2), (3, 4)],
+            "strings": ["lo", "hi"], "none-and-number": [None, 1.5], "large-int": [2 ** 60 + 1, 1]}
+    for label, seq in SEQS.items():
+        for how in ("values", "from_context"):
+            evaluations += 1
+            distinct.add(("pass-through", label, how))
+            del seen[:]
+            var = {"values": list(seq)} if how == "values" else {"from_context": "given"}
+            sweep = {"parameters": {"tag": "v"}, "variables": {"v": var}, "collection": "FloatDataCollection"}
+            nodes = [{"processor": "FloatValueDataSource", "parameters": {"value": 3.0}}, {"processor": RecorderC03, "derive": {"parameter_sweep": sweep}}]
+            try:
+                out = Pipeline(nodes).process(Payload(NoDataType(), ContextType({"given": list(seq)})))
+            except Exception as e:       # noqa
+                failures.append({"class": "valid-sweep-raised", "case": label, "how": how, "exc": repr(e)[:200]})
+                continue
+            if typed(seen) != typed(seq):
+                failures.append({"class": "processor-sees-values-other-than-the-given-sequence", "case": label, "how": how, "got": repr(typed(seen)), "want": repr(typed(seq))})
+            pub = out.context.get_value("v_values") if "v_values" in out.context.keys() else None
+            if pub is None or typed(list(pub)) != typed(seq):
+                failures.append({"class": "<var>_values-is-not-the-materialised-sequence", "case": label, "how": how, "got": repr(pub), "want": repr(seq)})
+
+
+values_pass_through_unchanged()
+print(json.dumps({"bound": "10 variable sets (1..3 variables; values, linear/log ranges with/without endpoint, from_context, variables named like expression functions) x {combinatorial, by_position, by_position+broadcast} x {source, operation, probe} x 2 expressions; 1 precedence case + 3 falsy node-parameter cases + 7 heterogeneous sequences x {values, from_context} compared element for element with their types",
                   "evaluations": evaluations, "distinct_nontrivial": len(distinct),
                   "rule": "distinct = (variable set, mode, broadcast, wrapped kind, expression); oracle = itertools.product over sorted names / aligned or cycled positions, written independently of the factory",
                   "failures": failures[:200], "samples": samples}, default=str))
